@@ -24,7 +24,7 @@ LEVEL = "fault_enumeration"
 MANIFEST = {
     "level_text": "Machine-checked proof (Coq) that the library header/section-table reader refuses every "
                   "proper prefix of a written library file, loads every intact one and is total with the "
-                  "outcomes refuse / Index bug / load; fault enumeration on the rebuilt compiler: every "
+                  "outcomes refuse / load; fault enumeration on the rebuilt compiler: every "
                   "truncation length and single-byte substitutions of real .ao/.al/.fm files, outcome "
                   "classified and compared with the model's prediction in the header/section-table region.",
     "level_note": "Only the header + section table is modelled; what the compiler does with damaged "
@@ -41,7 +41,7 @@ DIAG_RE = re.compile(r"Error|Fatal|Library format|Could not|Syntax|cannot|bad ",
 
 REFUSAL_TEXT = {"ShortHeader": "bad section header", "BadMagic": "bad magic number", "BadVersion": "obsolete version",
                 "BadNumSect": "bad number of sections", "BadSectName": "bad section name",
-                "BadSectHdr": "bad section header", "SectBeyondFile": "offset out of range",
+                "BadSectHdr": "bad section header", "SectBeyondFile": "offset out of range", "DupSect": "duplicate section",
                 "ShortSection": "offset out of range"}
 
 LIB_SRC = '''#include "aldor"
@@ -192,10 +192,21 @@ def enumerate_faults(rep, tier, info, world):
         rest = [k for k in range(n) if k not in head]
         return sorted(head | set(rng.sample(rest, min(sample, len(rest)))))
     thorough = tier != "quick"
+    cdir = os.path.join(C.VERIF, "corpus", ID)
+    if os.path.isdir(cdir):
+        for f in sorted(os.listdir(cdir)):
+            if f.endswith(".json"):
+                it = json.load(open(os.path.join(cdir, f)))
+                data = world.scen[it["scenario"]][1]
+                off = it["offset"] if it["offset"] >= 0 else len(data) + it["offset"]
+                if it["damage"] == "truncation":
+                    cases.append((it["scenario"], "truncation", off, data[:off]))
+                else:
+                    cases.append((it["scenario"], "single-byte", off, data[:off] + bytes([it["new_byte"]]) + data[off + 1:]))
     for scen in world.scen:
         data = world.scen[scen][1]
-        full = thorough or scen in ("ao-lib", "al-lib") or len(data) < 3000
-        for k in trunc_lengths(len(data), full, 250):
+        full = thorough or scen == "ao-lib" or len(data) < 3000
+        for k in trunc_lengths(len(data), full, 1500 if scen == "al-lib" else 250):
             cases.append((scen, "truncation", k, data[:k]))
     vals = lambda b: sorted({b ^ 0x01, b ^ 0x80, 0x00, 0xFF} - {b})
     for scen in world.scen:
@@ -254,6 +265,10 @@ def enumerate_faults(rep, tier, info, world):
             rclass = re.sub(r"section=\w+", "contents", region).replace("member/", "member-")
             rp["region"] = region
             key = "%s:%s:%s:%s" % (scen.split("-")[0], rclass, kind, cls)
+            if pred is not None:
+                # inside the modelled region the model's own outcome is part of the key: a fault the model
+                # predicts (the Index bug) is a different defect from a fault where it predicts a refusal
+                key += ":model=" + pred.split()[0]
             if key not in seen:
                 seen.add(key)
                 rep.violation("a %s file damaged by %s at offset %d (%s) is not refused: %s" % (
@@ -268,7 +283,7 @@ def enumerate_faults(rep, tier, info, world):
                 ok = cls == "fault" and "Index[Name[i]] != i" in out
             elif pred == "LOADED":
                 ok = not any(t in out for t in ("bad magic", "obsolete version", "bad number of sections", "bad section name",
-                                                 "bad section header"))
+                                                 "bad section header", "duplicate section"))
             else:
                 ok = False
             if ok:
@@ -306,15 +321,22 @@ def run(rep, tier):
     exe = C.build_compiler()
     c05.build_driver()
     world = World(exe, C.scratch("c17"))
-    world.build()
+    try:
+        world.build()
+    except C.BuildError as e:
+        # the INTACT files are not accepted: the other half of the property (intact_loaded)
+        rep.violation("an intact library/unit file is not read back: %s" % str(e)[:200],
+                      {"kind": "intact", "lib_source": LIB_SRC, "whole_source": WHOLE, "message": str(e)},
+                      key="intact-file:not-loaded")
+        return
     t2 = time.time()
     st = enumerate_faults(rep, tier, info, world)
     t3 = time.time()
     sizes = {s: len(world.scen[s][1]) for s in world.scen}
     rep.add_cov(evaluations=st["cases"], distinct_nontrivial=st["cases"],
                 traces_validated_against_impl=st["model_compared"],
-                rule="quick: every truncation length of lib1.ao, liblib1.al and of files < 3000 bytes, head/tail + 250 sampled lengths of the "
-                     "others; substitutions (^0x01, ^0x80, 0x00, 0xFF) at every offset of header + section table (and ar headers), "
+                rule="quick: every truncation length of lib1.ao and of files < 3000 bytes; liblib1.al: first 400 + last 200 + 1500 sampled lengths; "
+                     "the others: first 400 + last 200 + 250 sampled; substitutions (^0x01, ^0x80, 0x00, 0xFF) at every offset of header + section table (and ar headers), "
                      "sampled offsets elsewhere; thorough: every length of every file, 3000 body offsets",
                 samples=[{"scenario": s, "file": world.scen[s][0], "bytes": sizes[s], "cmd": world.scen[s][3]} for s in world.scen],
                 input_distribution={"by_class": st["by_class"], "by_scenario": st["by_scen"],
@@ -331,6 +353,14 @@ def run(rep, tier):
 
 def replay(path):
     rp = json.load(open(path))["replay"]
+    if rp.get("kind") == "intact":
+        try:
+            World(C.build_compiler(), C.scratch("c17r")).build()
+            print("intact files load")
+            return 0
+        except C.BuildError as e:
+            print("REPRODUCED: %s" % e)
+            return 1
     if rp.get("kind") != "fault":
         print("nothing to re-run")
         return 1
